@@ -650,6 +650,64 @@ def finalizer_scenarios(log):
             h.plain = None
             del hs[:]
             del h
+    note("default-attribute-error-with-warnings-as-errors")
+    # default-value resolution raising AttributeError (a misspelled attribute in _x_default, a failing factory) while
+    # warnings are errors: _warn_on_attribute_error (ctraits.c 1795-1838) chains the exceptions
+    import warnings
+
+    class WD(HasTraits):
+        x = Any()
+        inst = Instance(FHolder, factory=lambda: FHolder().no_such_attribute)
+
+        def _x_default(self):
+            return self.no_such_attribute
+
+    with warnings.catch_warnings():
+        warnings.simplefilter("error")
+        for _ in range(200):
+            w = WD()
+            for nm in ("x", "inst"):
+                try:
+                    getattr(w, nm)
+                except Exception as exc:
+                    repr(exc), repr(exc.__cause__), repr(exc.__context__)
+                    del exc
+            del w
+        gc.collect()
+    with warnings.catch_warnings():
+        warnings.simplefilter("ignore")
+        for _ in range(50):
+            w = WD()
+            try:
+                w.x
+            except Exception:
+                pass
+            del w
+    note("function-local-class-survives-gc")
+    # a class defined inside a function, referenced only by the running frame, whose only instance is cyclic garbage:
+    # a collection must not tear the class down
+    def local_class_scenario():
+        class Local(HasTraits):
+            x = Any()
+            y = Int(3)
+
+        for _ in range(3):
+            a = Local()
+            a.x = a                      # a reference cycle through the instance
+            del a
+            gc.collect()
+        b = Local()                      # RuntimeError('No ctrait_dict') / AttributeError when the class was torn down
+        if Local.__mro__ is None or "__class_traits__" not in Local.__dict__ or b.y != 3:
+            raise RuntimeError("class torn down")
+        b.x = 5
+        return Local
+    for _ in range(5):
+        try:
+            local_class_scenario()
+        except Exception as exc:
+            sys.stderr.write("FAIL: a garbage collection tore down a live function-local HasTraits class: %r\n" % (exc,))
+            sys.stderr.flush()
+            os._exit(70)
     note("heap-check")
     junk = [FHolder(payload=i) for i in range(2000)]
     del junk
